@@ -11,17 +11,11 @@ import (
 	"os/exec"
 	"path/filepath"
 	"testing"
-	"time"
 
-	"github.com/ethereum/go-ethereum/common"
-	"github.com/ethereum/go-ethereum/crypto"
 	"pgregory.net/rapid"
 
-	clienttypes "github.com/bianjieai/tibc-go/modules/tibc/core/02-client/types"
-	bsctypes "github.com/bianjieai/tibc-go/modules/tibc/light-clients/08-bsc/types"
 	ethtypes "github.com/bianjieai/tibc-go/modules/tibc/light-clients/09-eth/types"
 
-	"verifharness/lcgen"
 	"verifharness/sim"
 	"verifharness/world"
 )
@@ -38,11 +32,6 @@ var profileC20 = []kindW{{"mocksend", 3}, {"nftsend", 4}, {"mtsend", 4}, {"round
 func genC20(t *rapid.T) C20Case {
 	return C20Case{N: rapid.IntRange(2, 3).Draw(t, "n"), Ops: rapid.SliceOfN(opGenAB(profileC20, 7), 10, 45).Draw(t, "ops")}
 }
-
-const (
-	c20BSC = "bsc-testnet01"
-	c20ETH = "eth-testnet01"
-)
 
 var (
 	debugC20     bool
@@ -69,122 +58,24 @@ func runC20(c C20Case) (*c20Run, *sim.Violation) {
 	w := world.New(world.Config{N: n, KeepLog: true})
 	s := sim.New(w)
 	a := w.Chains[w.Order[0]]
-	labels := map[string]int{}
-	// BSC client (5 validators, epoch 6) and ETH client on chain 0, relayer registered for both
-	const epoch = 6
-	var set0 []common.Address
-	for i := 0; i < 5; i++ {
-		set0 = append(set0, c17Keys[i].Addr)
+	fc, fv := newForeignClients(w, a)
+	if fv != nil {
+		fv.Property = "C20"
+		return nil, fv
 	}
-	set0 = lcgen.SortAddrs(set0)
-	bgen := lcgen.NewParliaHeader(epoch*2, common.HexToHash("0x01"), set0[0], 2, 30_000_000, 0, uint64(world.GenesisTime.Unix()), crypto.Keccak256Hash([]byte("r0")), set0)
-	lcgen.Seal(bgen, c17ChainID, keyOf(set0[0]))
-	var vb [][]byte
-	for _, x := range set0 {
-		vb = append(vb, x.Bytes())
+	labels := fc.Labels
+	// fixed prefix: enough BSC headers to cross an epoch and apply its validator-set change, two ETH updates
+	// and one relayed packet driven to completion
+	prefix := []sim.Op{{K: "bscupd", D: 3, B: 1}, {K: "bscupd", D: 3, B: 1}, {K: "ethupd"}, {K: "ethupd", A: 1}, {K: "mocksend", A: 0, B: 0, C: 1}, {K: "round", A: 0}}
+	if n < 3 {
+		prefix = prefix[:4]
 	}
-	egen := lcgen.EthGenesis(500, uint64(world.GenesisTime.Unix()), 30_000_000, 15_000_000, 3_000_000, 1_000_000_000)
-	{
-		ctx := a.Ctx()
-		k := a.App.TIBCKeeper.ClientKeeper
-		if err := k.CreateClient(ctx, c20BSC, &bsctypes.ClientState{Header: *bgen, ChainId: c17ChainID, Epoch: epoch, BlockInteval: 3, Validators: vb,
-			ContractAddress: common.HexToAddress("0x10").Bytes(), TrustingPeriod: 1 << 40},
-			&bsctypes.ConsensusState{Timestamp: bgen.Time, Number: bgen.Height, Root: bgen.Root}); err != nil {
-			return nil, &sim.Violation{Property: "C20", Sig: "setup", Msg: err.Error()}
-		}
-		if err := k.CreateClient(ctx, c20ETH, &ethtypes.ClientState{Header: *egen, ChainId: 1, ContractAddress: common.HexToAddress("0x10").Bytes(), TrustingPeriod: 1 << 40},
-			&ethtypes.ConsensusState{Timestamp: egen.Time, Number: egen.Height, Root: egen.Root}); err != nil {
-			return nil, &sim.Violation{Property: "C20", Sig: "setup", Msg: err.Error()}
-		}
-		rel := []string{a.Accounts[world.RelayerIdx].Addr.String()}
-		k.RegisterRelayers(ctx, c20BSC, rel)
-		k.RegisterRelayers(ctx, c20ETH, rel)
-		a.CommitEmpty(1)
-	}
-	pm := &parliaModel{latest: bgen, vals: set0, pending: set0, sealers: map[uint64]common.Address{}, epoch: epoch}
-	fresh := 5
-	ethLatest := egen
-	relayer := a.Accounts[world.RelayerIdx]
-	for _, op := range append(tokenPreamble(n), c.Ops...) {
+	for _, op := range append(append(tokenPreamble(n), prefix...), c.Ops...) {
 		switch op.K {
 		case "bscupd":
-			for rep := 0; rep < 2+mod(op.D, 4); rep++ {
-				parent := pm.latest
-				num := parent.Height.RevisionHeight + 1
-				N := len(pm.vals)
-				elig := pm.eligible(num)
-				inturn := pm.vals[num%uint64(N)]
-				signer := elig[mod(op.A, len(elig))]
-				for _, e := range elig {
-					if e == inturn && op.A%2 == 0 {
-						signer = e
-					}
-				}
-				diff := uint64(1)
-				if signer == inturn {
-					diff = 2
-				}
-				var listed []common.Address
-				if num%epoch == 0 {
-					listed = append([]common.Address{}, pm.vals...)
-					switch mod(op.B, 3) {
-					case 1:
-						listed = append(listed, c17Keys[fresh%len(c17Keys)].Addr)
-						fresh++
-					case 2:
-						if len(listed) > 2 {
-							listed = listed[:len(listed)-1]
-						}
-					}
-					listed = dedupAddrs(listed)
-				}
-				hdr := lcgen.NewParliaHeader(num, parent.Hash(), signer, diff, parent.GasLimit, 100, parent.Time+3, crypto.Keccak256Hash([]byte(fmt.Sprintf("r%d", num))), listed)
-				invalid := mod(op.C, 5) == 4 && rep == 0
-				if invalid {
-					hdr.Difficulty = 3 - diff
-				}
-				lcgen.Seal(hdr, c17ChainID, keyOf(signer))
-				msg, err := clienttypes.NewMsgUpdateClient(c20BSC, hdr, relayer.Addr)
-				if err != nil {
-					break
-				}
-				res := a.Deliver(relayer, msg)
-				if res.Code == 0 {
-					labels["bsc-update-accepted"]++
-					pm.sealers[num] = signer
-					pm.latest = hdr
-					if num%epoch == 0 {
-						pm.pending = lcgen.SortAddrs(listed)
-					}
-					if num%epoch == uint64(N/2) {
-						if !sameAddrs(pm.vals, pm.pending) {
-							labels["bsc-validator-set-changed"]++
-						}
-						pm.vals = pm.pending
-					}
-				} else {
-					labels["bsc-update-rejected"]++
-				}
-			}
+			fc.bscUpdate(op)
 		case "ethupd":
-			hdr := lcgen.EthChild(ethLatest, ethLatest.Time+12, ethLatest.GasLimit, ethLatest.GasLimit/2, crypto.Keccak256Hash([]byte(fmt.Sprintf("e%d", ethLatest.Height.RevisionHeight))), byte(op.A))
-			if mod(op.C, 5) == 4 {
-				hdr.BaseFee = "7"
-			}
-			// the chain's block time must not lag the header time by more than 15 s
-			if lag := int64(hdr.Time) - w.Now().Unix(); lag > 0 {
-				w.Advance(time.Duration(lag) * time.Second)
-			}
-			msg, err := clienttypes.NewMsgUpdateClient(c20ETH, hdr, relayer.Addr)
-			if err != nil {
-				continue
-			}
-			if res := a.Deliver(relayer, msg); res.Code == 0 {
-				labels["eth-update-accepted"]++
-				ethLatest = hdr
-			} else {
-				labels["eth-update-rejected"]++
-			}
+			fc.ethUpdate(op)
 		case "rulestx":
 			s.Apply(sim.Op{K: "rules", A: op.A, B: op.B})
 		default:
